@@ -353,6 +353,42 @@ def r2(p, rep, lockinfo):
                         r = chain_root(n.value) if isinstance(n.value, (ast.Attribute, ast.Subscript, ast.Name)) else None
                         aliasing = r is not None and r.id in other
                         rep.add("C10.R2", f"{sc.qualname}.__init__:self.{t.attr}", f"{sc.module.rel}:{n.lineno}", not aliasing, f"self.{t.attr} = {norm(n.value)}" + (" aliases the source snapshot's container" if aliasing else " (fresh object)"))
+        # (c') the copy is one level deep: a container that is an ELEMENT of a copied container still belongs to the
+        # published snapshot as well.  Emptying such an element in place (pop / popleft / remove / clear / del x[i]) takes
+        # entries away from the published state even when the new state is discarded (the lookup that triggered the work
+        # raised): they are lost for good
+        removing = {"pop", "popleft", "popitem", "remove", "clear"}
+        for name, f in sc.methods.items():
+            s0 = self_name(f)
+            inner = {}
+            for n in ast.walk(f.node):
+                if isinstance(n, ast.Assign) and len(n.targets) == 1 and isinstance(n.targets[0], ast.Name):
+                    v = n.value
+                    src_ = None
+                    if isinstance(v, ast.Subscript) and isinstance(v.value, ast.Attribute) and norm(v.value.value) == s0:
+                        src_ = v.value.attr
+                    elif isinstance(v, ast.Call) and isinstance(v.func, ast.Attribute) and v.func.attr in ("pop", "get", "setdefault") and isinstance(v.func.value, ast.Attribute) and norm(v.func.value.value) == s0:
+                        src_ = v.func.value.attr
+                    if src_ is not None:
+                        inner[n.targets[0].id] = src_
+                if isinstance(n, ast.For) and isinstance(n.iter, ast.Call) and isinstance(n.iter.func, ast.Attribute) and n.iter.func.attr in ("values", "items") and isinstance(n.iter.func.value, ast.Attribute) and norm(n.iter.func.value.value) == s0:
+                    tv = n.target.elts[-1] if isinstance(n.target, ast.Tuple) else n.target
+                    if isinstance(tv, ast.Name):
+                        inner[tv.id] = n.iter.func.value.attr
+            for n in ast.walk(f.node):
+                tgt = None
+                if isinstance(n, ast.Call) and isinstance(n.func, ast.Attribute) and n.func.attr in removing:
+                    r_ = n.func.value
+                    if isinstance(r_, ast.Name) and r_.id in inner:
+                        tgt = (r_.id, inner[r_.id])
+                    elif isinstance(r_, ast.Subscript) and isinstance(r_.value, ast.Attribute) and norm(r_.value.value) == s0:
+                        tgt = (norm(r_), r_.value.attr)
+                if isinstance(n, ast.Delete):
+                    for t in n.targets:
+                        if isinstance(t, ast.Subscript) and isinstance(t.value, ast.Name) and t.value.id in inner:
+                            tgt = (t.value.id, inner[t.value.id])
+                if tgt is not None:
+                    rep.violation("C10.R2", f"{sc.qualname}.{name}:drains({tgt[1]})", f"{sc.module.rel}:{n.lineno}", f"`{norm(n)[:60]}` empties `{tgt[0]}`, an element of self.{tgt[1]}: the snapshot copy is one level deep, so this container is shared with the published state - its entries disappear from the committed registry even if this new state is never published (a failing lookup), e.g. the backends of a freshly imported framework are lost for good")
         # (d) nobody outside the class calls a mutating method on the published attribute
         for f in p.funcs.values():
             if f.cls is sc:
